@@ -224,6 +224,7 @@ def judge(tokens, out, want, ra=False):
     cached_gen = {}        # reader j -> generation stored with its cached record
     gstores = 0
     memgen = 0             # the generation the writer (or the J device) stored last: what the segment holds
+    gens_of_pub = {}       # publication k -> generations the segment held while k was its latest complete publication
     for t, items in walk(tokens, obs):
         if t[0] == "W":
             for it in items:
@@ -242,6 +243,7 @@ def judge(tokens, out, want, ra=False):
                     else:
                         in_flight = False                # second one: the call is complete
                         completed = started
+                        gens_of_pub.setdefault(completed, set()).add(memgen)
                         if want in ("C03", "C04", "C02") and it["val"] % 2 == 1:
                             bad.append("a completed update left the generation odd (%d): clients keep serving their previous record" % it["val"])
                     if want == "C04" and it["val"] == 0:
@@ -264,6 +266,8 @@ def judge(tokens, out, want, ra=False):
                         cj["g1"] = it["val"]
                     if it["kind"] == "L" and it["loc"] == "g":
                         cj["lastg"] = it["val"]
+                        if not in_flight:
+                            gens_of_pub.setdefault(completed, set()).add(memgen)
                         if not ra and want in ("C03", "C04") and it["val"] != memgen:
                             bad.append("reader %d loaded generation %d while the segment holds %d: the client is not looking at the memory the daemon "
                                        "publishes to (it must see a restarted daemon's publications without reopening)" % (j, it["val"], memgen))
@@ -291,7 +295,9 @@ def judge(tokens, out, want, ra=False):
                             bad.append("reader %d went back from publication %d to %d" % (j, last_ret[j], k))
                     if it["ret"] == "F":
                         cached_gen[j] = cj.get("lastg")
-                    aba = it["ret"] == "C" and cj.get("g1") is not None and cj.get("g1") == cached_gen.get(j)
+                    # the documented exception: the generation the call found is one the segment held while the record
+                    # the client caches was its latest publication (so the cache looks current although it is not)
+                    aba = it["ret"] == "C" and cj.get("g1") is not None and cj.get("g1") in gens_of_pub.get(k, ())
                     if want == "C03" and not ra:
                         # documented exception: the live generation coincides with the cached one
                         reinit = cj.get("g1") == 0       # generation 0: the segment reads "being re-initialised", the cache is served by design
@@ -417,6 +423,17 @@ def gen_wrap(rng):
     return toks
 
 
+def whole_publications_inside_a_call():
+    """one or two whole publications between any two consecutive accesses of one snapshot() call, the writer idle
+    afterwards while the client calls again"""
+    scheds = []
+    for pos in range(0, 16):
+        for m in (1, 2):
+            scheds.append([("W",)] * 11 + [("N",)] + [("R", 0, None)] * pos + [("W",)] * (11 * m) + [("R", 0, None)] * 40)
+            scheds.append([("W",)] * 22 + [("N",)] + [("R", 0, None)] * 13 + [("W",)] * 11 + [("R", 0, None)] * pos + [("W",)] * (11 * m) + [("R", 0, None)] * 40)
+    return scheds
+
+
 def small_scope(max_w=12, positions=None):
     """All placements of one complete snapshot's accesses (13) into one complete update (11
     writer accesses) after a first publication: the classic seqlock interleavings, exhaustively
@@ -442,7 +459,7 @@ def run_property(pid, res, proofs_ok, proofs_why, extra_part=None):
                        "trace": trace[:40]}, found_input=False)
         # the programs no longer have the shape the model knows, so there is nothing to compare with; the
         # schedules are still run on the real code and judged by the oracle alone, in search of a failing input
-        scheds = list(small_scope())
+        scheds = list(small_scope()) + whole_publications_inside_a_call()
         for i in range(300 if res.tier == "quick" else 5000):
             scheds.append(gen_schedule(rng, "crash" if i % 4 == 0 else "plain"))
         for i in range(100 if res.tier == "quick" else 2000):
@@ -478,6 +495,8 @@ def run_property(pid, res, proofs_ok, proofs_why, extra_part=None):
     if res.tier == "quick":
         keep = list(range(0, len(scheds), 3))
         scheds, tags = [scheds[i] for i in keep], [tags[i] for i in keep]
+    for s in whole_publications_inside_a_call():
+        scheds.append(s); tags.append("whole publications between two accesses of a call")
     for i in range(n):
         kind = "crash" if (pid == "C04" or i % 4 == 0) else "plain"
         scheds.append(gen_schedule(rng, kind)); tags.append(kind)
